@@ -477,7 +477,7 @@ def plans_C08(g, tier):
                     clauses = order + 'T' + ('A' if act != 'NONE' else '')
                     sh = g.shape(fn=fn, mk1='ANY', nwith=w, nse=s_, tform='RT', act=act, clauses=clauses)
                     wvecs = list(itertools.product((0, 1, 2), repeat=w))
-                    svecs = list(itertools.product((0, 1, 2, 3) if tier != 'quick' else (0, 1, 2), repeat=s_))
+                    svecs = list(itertools.product((0, 1, 2, 3) if (tier != 'quick' or s_ <= 1) else (0, 1, 2), repeat=s_))
                     for wv in wvecs:
                         for sv in svecs:
                             for am in ((0, 1) if act == 'RET' else (0,)):
@@ -488,7 +488,18 @@ def plans_C08(g, tier):
                                 sh_shadow = shadow if fn == F1 else (shadow_v if fn == V1 else (shadow_r if fn == R1 else shadow_cr))
                                 pre.append([allow_g, sh_shadow, g.create(0, sh, obj=0, lo=1, hi=2, wmode=wm, semode=sm, actmode=am)])
     alpha = [g.call(0, F1, 1), g.call(0, F1, 2), g.call(0, V1, 1), g.call(0, V1, 2), g.call(0, R1, 1), g.call(0, R1, 2), g.call(0, CR1, 1), g.call(0, CR1, 2)]
-    return [dict(name='clauses', mask=M_C08, du=0, dm=3, alphabet=alpha, prefixes=pre)]
+    # "a call that throws still counts as handled" also for the sequence bookkeeping, and after an earlier no-match report that named the expectation
+    spre = []
+    for act, nse, sem, am in (('RET', 1, 1, 0), ('RET', 2, 1, 0), ('THROW_INT', 0, 0, 0), ('THROW_STD', 1, 0, 0), ('RET', 0, 0, 1), ('RET', 1, 0, 0)):
+        for b in ((1, 1), (1, 2), (2, 2)):
+            for mk in ('EQ', 'ANY'):
+                tested = g.create(1, g.shape(fn=F1, mk1=mk, nse=nse, seqar=1, tform='RT', act=act), obj=0, k1=1, lo=b[0], hi=b[1], s1=0, semode=(sem, sem, 0), actmode=am)
+                opt = g.create(0, g.shape(fn=G1, mk1='ANY', nse=1, seqar=1, tform='RT'), obj=0, lo=0, hi=INF, s1=0)
+                after = g.create(2, g.shape(fn=G1, mk1='EQ', nse=1, seqar=1, tform='RT'), obj=0, k1=2, lo=1, hi=1, s1=0)
+                spre.append([opt, tested, after])
+    salpha = [g.call(0, F1, 1), g.call(0, F1, 0), g.call(0, G1, 1), g.call(0, G1, 2), g.release(1), g.op(OP_DESTROY_SEQ, s1=0)]
+    return [dict(name='clauses', mask=M_C08, du=0, dm=3, alphabet=alpha, prefixes=pre),
+            dict(name='throwing_in_sequence', mask=M_C08 | F_QSEQ | F_REPCOUNT, du=0, dm=5 if tier == 'quick' else 7, alphabet=salpha, prefixes=spre)]
 
 
 # ---------------------------------------------------------------- C13
